@@ -76,10 +76,14 @@ var defaultOptions = &Options{
 }
 
 func New(opts ...ReaderOption) *Reader {
+	// Each reader gets its own copy of the default options so that the
+	// functional options never write through to the package defaults.
+	o := *defaultOptions
+	o.formatOptions = map[string]interface{}{}
 	r := &Reader{
 		sniffer: &formats.Sniffer{},
 		Storage: storage.NewFileSystem(),
-		Options: defaultOptions,
+		Options: &o,
 	}
 
 	for _, opt := range opts {
@@ -157,7 +161,7 @@ func (r *Reader) detectFormat(rs io.ReadSeeker) (formats.Format, error) {
 // Retrieve reads a document from the configured storage backend using the
 // default options.
 func (r *Reader) Retrieve(id string) (*sbom.Document, error) {
-	return r.RetrieveWithOptions(id, defaultOptions)
+	return r.RetrieveWithOptions(id, r.Options)
 }
 
 // RetrieveWithOptions retrieves a document from the configured storage backend
